@@ -54,7 +54,13 @@ def check(prop: str, tier: str, repo: str | None, write: bool = True) -> int:
     try:
         mod = load_rules(prop)
         prog = Program(repo)
-        ctx, rep = run_rules(mod, prog)
+        try:
+            ctx, rep = run_rules(mod, prog)
+        except AnalysisError as e0:
+            # an anchor was not found on the tree as written: still try the normal form before giving up
+            ctx = engine.Context(prog)
+            rep = engine.Reporter(mod.PROP)
+            rep.errors.append(str(e0))
         known = engine.load_known()
         normal_form_note = None
         if (any((not o.ok) and engine.match_known(o, prop, known) is None for o in rep.obligations) or rep.errors):
